@@ -2547,6 +2547,12 @@ fn main() {
                             sigt = sigt.replace(&format!("${k}"), &name);
                             hspec = hspec.replace(&format!("${k}"), &name);
                             hpre = hpre.replace(&format!("${k}"), &name);
+                        } else if let syn::Pat::Wild(_) = inner {
+                            // a parameter the closure ignores (`_`): the contract still names it
+                            let name = format!("vx_ignored{k}");
+                            sigt = sigt.replace(&format!("${k}"), &name);
+                            hspec = hspec.replace(&format!("${k}"), &name);
+                            hpre = hpre.replace(&format!("${k}"), &name);
                         }
                     }
                     for (k, p) in c.inputs.iter().enumerate() {
@@ -2575,6 +2581,9 @@ fn main() {
                         if let syn::Pat::Ident(pi) = inner {
                             body = body.replace(&format!("$h{k}"), &pi.ident.to_string());
                             hpost = hpost.replace(&format!("$h{k}"), &pi.ident.to_string());
+                        } else if let syn::Pat::Wild(_) = inner {
+                            body = body.replace(&format!("$h{k}"), &format!("vx_ignored{k}"));
+                            hpost = hpost.replace(&format!("$h{k}"), &format!("vx_ignored{k}"));
                         }
                     }
                     *counts.entry("E11-closure-hoisted".into()).or_insert(0) += 1;
